@@ -64,6 +64,10 @@ int main(int argc, char **argv)
     (void)app;
 
     std::atomic<bool> slowEntered { false };
+    // the handler may be installed before the pipeline is filled (nothing logs yet): what counts at the fatal message is the
+    // pipeline as it is then
+    const bool installFirst = sc["installFirst"].toBool() && (style == "fluent" || style == "nested");
+    if (installFirst) gQtLogger.installMessageHandler();
     if (style == "fluent") {
         if (sc["slow"].toBool())
             gQtLogger.filter([&](const QtLogger::LogMessage &m) {
@@ -71,7 +75,7 @@ int main(int argc, char **argv)
                 return true;
             });
         gQtLogger.format(pattern).sendToFile(path, maxSize, 0, opt);
-        gQtLogger.installMessageHandler();
+        if (!installFirst) gQtLogger.installMessageHandler();
     } else if (style == "nested") {
         // README-style layout: sibling sub-pipelines, the file sink lives in the last one
         for (int i = 0; i < sc["siblings"].toInt(); i++)
@@ -79,7 +83,7 @@ int main(int argc, char **argv)
         if (sc["netFile"].toBool()) // a per-category log file: the fatal message (another category) never reaches this sink
             gQtLogger.pipeline().filterCategory(QStringLiteral("*=false\nnet=true")).format(pattern).sendToFile(dir + "/../net.log").end();
         gQtLogger.pipeline().format(pattern).sendToFile(path, maxSize, 0, opt).end();
-        gQtLogger.installMessageHandler();
+        if (!installFirst) gQtLogger.installMessageHandler();
     } else if (style == "oneline") {
         gQtLogger.configure(path, maxSize, 0, opt, /*async*/ false);
     } else { // ini
@@ -100,6 +104,10 @@ int main(int argc, char **argv)
         }
         gQtLogger.configureFromIniFile(ini);
     }
+
+    // one more file sink, added with the fluent API after the configuration proper (whatever its style) is complete
+    if (sc["extraFile"].toBool())
+        gQtLogger.pipeline().format(pattern).sendToFile(dir + "/../extra.log").end();
 
     // ---- preceding messages: every thread logs its own list in order; all calls have returned before the fatal ----
     const int threads = sc["threads"].toInt();
